@@ -483,6 +483,7 @@ func (e *Exec) lookup(ins *ssa.Lookup, x, k Value) Value {
 	case Str:
 		return e.strIndex(x, k.(*Term))
 	case *Map:
+		e.sharedMapAccess(x, false)
 		ent := e.mapFind(x, k)
 		var v Value
 		if ent != nil {
@@ -571,6 +572,7 @@ func (e *Exec) rangeIter(x Value) Value {
 		if x == nil {
 			return &mapIter{}
 		}
+		e.sharedMapAccess(x, false)
 		return &mapIter{m: x, keys: x.sortedKeys()}
 	case Str:
 		return &strIter{s: x}
@@ -619,6 +621,7 @@ func (e *Exec) builtin(b *ssa.Builtin, args []Value) Value {
 		}
 		need := len(s.v) + len(add)
 		if need <= cap(s.v) {
+			e.sharedWrite(s.o)
 			nv := s.v[:need]
 			for i, a := range add {
 				nv[len(s.v)+i] = copyVal(a)
@@ -638,6 +641,9 @@ func (e *Exec) builtin(b *ssa.Builtin, args []Value) Value {
 	case "copy":
 		d := args[0].(Slice)
 		n := 0
+		if len(d.v) > 0 {
+			e.sharedWrite(d.o)
+		}
 		switch y := args[1].(type) {
 		case Slice:
 			n = copy(d.v, y.v)
@@ -654,6 +660,7 @@ func (e *Exec) builtin(b *ssa.Builtin, args []Value) Value {
 		if m == nil {
 			return nil
 		}
+		e.sharedMapAccess(m, true)
 		if ent := e.mapFind(m, args[1]); ent != nil {
 			if hk, ok := hashKey(ent.k); ok {
 				delete(m.m, hk)
